@@ -53,6 +53,10 @@ pub fn live(seed: u64, n: usize, out: &mut dyn Write) {
     let interval = Duration::from_millis(20);
     let stall_ms = Arc::new(AtomicU64::new(0));
     let in_report = Arc::new(AtomicBool::new(false));
+    // the reporter is installed twice: first with an interval of an hour, then with the one
+    // the run relies on -- the configuration that counts is that of the LAST set_reporter
+    fastrace::set_reporter(LiveReporter { reports: Arc::new(Mutex::new(Vec::new())), stall_ms: Arc::new(AtomicU64::new(0)), in_report: Arc::new(AtomicBool::new(false)) },
+        Config::default().report_interval(Duration::from_secs(3600)));
     fastrace::set_reporter(LiveReporter { reports: reports.clone(), stall_ms: stall_ms.clone(), in_report: in_report.clone() },
         Config::default().report_interval(interval));
     let mut r = Rng::new(seed);
@@ -78,7 +82,7 @@ pub fn live(seed: u64, n: usize, out: &mut dyn Write) {
             stall_ms.store(ms, Ordering::SeqCst);
             drop(first);
             let t0 = Instant::now();
-            while !in_report.load(Ordering::SeqCst) && t0.elapsed() < Duration::from_millis(3000) {
+            while !in_report.load(Ordering::SeqCst) && t0.elapsed() < Duration::from_millis(10000) {
                 std::thread::sleep(Duration::from_millis(1));
             }
             let stalled = in_report.load(Ordering::SeqCst);
@@ -140,7 +144,7 @@ pub fn live(seed: u64, n: usize, out: &mut dyn Write) {
             let warm = Span::root(format!("late-warm-{k}"), SpanContext::new(TraceId(trace ^ 1), SpanId(3)));
             drop(warm);
             let t0 = Instant::now();
-            while !started.load(Ordering::SeqCst) && t0.elapsed() < Duration::from_millis(3000) {
+            while !started.load(Ordering::SeqCst) && t0.elapsed() < Duration::from_millis(10000) {
                 std::thread::sleep(Duration::from_millis(1));
                 if t0.elapsed() > Duration::from_millis(200) {
                     // keep the drain supplied in case the first cycle had already passed
@@ -214,7 +218,7 @@ pub fn live(seed: u64, n: usize, out: &mut dyn Write) {
             drain(&mut delivered);
         } else {
             // no further call: the background thread must deliver on its own
-            let deadline = Duration::from_millis(3000);
+            let deadline = Duration::from_millis(10000);
             loop {
                 drain(&mut delivered);
                 if expected.iter().all(|e| delivered.get(e).copied().unwrap_or(0) >= 1) || t0.elapsed() > deadline {
